@@ -11,6 +11,7 @@ import (
 
 	"time"
 
+	"verif/internal/c19"
 	"verif/internal/evid"
 	"verif/internal/l1"
 	"verif/internal/l2"
@@ -21,7 +22,20 @@ func main() {
 	// Scenario 0 is fixed (filter headers lagging, reorganisation above the
 	// filter tip); the others are drawn, about half of them with such steps.
 	nL2 := r.Pick(9, 451)
+	// Family regwin (internal/c19/regwin.go): scenarios nL2.. of the same
+	// child-process list; the first one is fixed, the others are drawn.
+	nReg := r.Pick(14, 400)
 	l2scen := func(seed int64, k int, res *l2.Result) {
+		if k >= nL2 {
+			defer c19.RegScratch(k)()
+			plan := c19.RegPlanFromSeed(seed, k-nL2-1)
+			if k == nL2 {
+				plan = c19.RegFixedPlan()
+			}
+			res.Name = plan.Name
+			c19.RunRegWin(plan, res)
+			return
+		}
 		res.Name = fmt.Sprintf("c19-l2-%d", k)
 		if k == 0 {
 			res.Name = "c19-l2-fixed-lag-reorg"
@@ -169,7 +183,8 @@ func main() {
 	// manager on top of the block manager) while the honest chain grows and
 	// reorganises; each subscriber replays backlog + events and must hold the
 	// committed chain at every quiescent point.
-	l2.RunScenarios(r, nL2, 240*time.Second, l2scen)
+	r.Rule("family regwin (registration window; the REAL blockntfns.SubscriptionManager on top of the REAL block manager of engine L1, wired as ChainService wires it, in child processes next to the network-simulation scenarios): the notification source handed to the manager is the block manager behind a wrapper that, right after a backlog read (NotificationsSinceHeight) returned, lets the next chain change of the round start on the driver goroutine and waits (placement only) until it completed or, having reached a pause point rb.afterBlock / cf.afterWrite, evidently waits for the registering goroutine. Per round one primary subscriber registers from (filter tip - x | 0) while the chain is quiet and 0-2 secondaries from a height below every fork point of the round register while the change is under way; changes: extension, extension of block headers only (filter headers lag), reorganisation of depth 1-6 (shallower than / exactly as deep as / deeper than the backlog; reaching below the subscribed height; of uncommitted blocks only), rollback now and filter headers in a second change, two reorganisations in one registration. A failed Subscribe is retried from the same height. Oracle: the replay rule of the network-simulation part (l2.SubReplay) at the quiescent point after every round, for every live subscriber. The first session is seed-independent")
+	l2.RunScenarios(r, nL2+nReg, 240*time.Second, l2scen)
 	r.Finish(10)
 }
 
